@@ -363,6 +363,23 @@ func (v *val) show() string {
 	return "?"
 }
 
+// frontier counts the tokens and errors reachable from a value (zero values count nothing).
+func (v *val) frontier() int {
+	switch v.kind {
+	case 't', 'e':
+		return 1
+	case 'n':
+		return v.node.ntok
+	case 'l':
+		n := 0
+		for _, e := range v.elems {
+			n += e.frontier()
+		}
+		return n
+	}
+	return 0
+}
+
 func (v *val) discard(w []int) bool {
 	switch v.kind {
 	case 't':
@@ -424,7 +441,13 @@ func Expected(p *Plain, tree *Node, w []int) *Expect {
 		loose := false
 		if pr.User {
 			seq++
-			un := &unode{rule: p.Names[pr.LHS], id: seq, kids: kids, ntok: hi - lo}
+			// Discard() of a node counts the frontier of the node AS BUILT (values filtered out by
+			// an inner *! are not part of it), exactly like the generated nodeT.Discard
+			nf := 0
+			for _, k := range kids {
+				nf += k.frontier()
+			}
+			un := &unode{rule: p.Names[pr.LHS], id: seq, kids: kids, ntok: nf}
 			// number of tokens covered counts real tokens only (frontier skips zero tokens; errors count as one entry)
 			v = &val{kind: 'n', node: un}
 			ex.Nodes++
